@@ -176,10 +176,45 @@ pub fn run(ctx: &Ctx) -> Report {
         .reduce(Acc::default, |a, b| a.merge(b));
     let acc = acc.merge(acc_big);
     let _ = n_big;
+    // repeated attributes of every built-in type: two and three occurrences whose values are each
+    // either a valid value, another valid value, or a value the typed decoder refuses, in every order
+    // (with and without a FINGERPRINT): every lookup, raw and typed, answers from the first occurrence
+    let mut dups: Vec<Case> = Vec::new();
+    for k in crate::refimpl::attrs::ALL_KINDS {
+        use crate::refimpl::attrs::{decode, Verdict};
+        let tid0: u128 = 0x0102_0304_0506_0708_090A_0B0C;
+        let goods: Vec<Vec<u8>> = crate::engine_in::values::encode_values(k, 1).into_iter().filter(|(v, t)| *t == tid0 && matches!(decode(k, v), Verdict::Accept(_))).map(|(v, _)| v).collect();
+        let mut vals: Vec<Vec<u8>> = Vec::new();
+        if let Some(g) = goods.first() {
+            vals.push(g.clone());
+        }
+        if let Some(g) = goods.iter().rev().find(|g| Some(*g) != goods.first()) {
+            vals.push(g.clone());
+        }
+        if let Some(b) = crate::engine_in::values::decode_values(k, ctx.tier).into_iter().find(|v| matches!(decode(k, v), Verdict::Reject(_))) {
+            vals.push(b);
+        }
+        if wire::is_integrity(k.code()) || k.code() == wire::FP {
+            continue; // sealing attributes have their own families
+        }
+        for n in 2..=3u32 {
+            for mut code in 0..(vals.len() as u32).pow(n) {
+                let mut b = wire::encode_header(0, 1, tid0, 0);
+                for _ in 0..n {
+                    wire::append_raw(&mut b, k.code(), &vals[(code as usize) % vals.len()]);
+                    code /= vals.len() as u32;
+                }
+                dups.push(Case::new("parse", b.clone()));
+                wire::append_fp(&mut b);
+                dups.push(Case::new("parse", b));
+            }
+        }
+    }
+    let acc = acc.merge(crate::props::sweep(dups.into_par_iter(), judge));
     Report {
         acc,
         exhaustive: true,
-        rule: "all attribute skeletons over {OPT,SW x len 0/1/3/4, MI, MI256, FP ok, FP bad} to the stated depth x 3 header variants; on each: every cut point, header-length perturbation, excess variant, per-attribute length perturbation, top bits, every cookie bit, non-zero padding; on skeletons of <= 3 attributes (thorough 4) also every value of every type/length byte of the header and of each attribute header and every single-bit flip of buffers up to 64 bytes; plus every 16-bit attribute type (value length 0 and 5) at each position of 10 templates around MI / MI256 / FP; large messages (one big attribute + every tail of <= 2 sealing attributes, ending at every multiple of 4 in 65480..=65552 and around 256 / 4096 / 32768) and values that look like sealing-attribute headers, each with header-length perturbations and cuts; distinct_nontrivial counts fault-free skeleton buffers".into(),
+        rule: "all attribute skeletons over {OPT,SW x len 0/1/3/4, MI, MI256, FP ok, FP bad} to the stated depth x 3 header variants; on each: every cut point, header-length perturbation, excess variant, per-attribute length perturbation, top bits, every cookie bit, non-zero padding; on skeletons of <= 3 attributes (thorough 4) also every value of every type/length byte of the header and of each attribute header and every single-bit flip of buffers up to 64 bytes; plus every 16-bit attribute type (value length 0 and 5) at each position of 10 templates around MI / MI256 / FP; large messages (one big attribute + every tail of <= 2 sealing attributes, ending at every multiple of 4 in 65480..=65552 and around 256 / 4096 / 32768) and values that look like sealing-attribute headers, each with header-length perturbations and cuts; messages with two / three occurrences of each built-in type (valid, other valid, refused value, every order); typed lookups compared with the typed decoding of the first occurrence on every accepted message; distinct_nontrivial counts fault-free skeleton buffers".into(),
         bounds: json!({"skeletons": n_sk, "full_alphabet_depth": n_full, "small_alphabet_depth": n_small, "header_variants": 3, "faults": "single"}),
         assumptions: vec!["buffers outside the grammar alphabets and with two or more independent faults are not explored".into()],
         ..Default::default()
@@ -256,6 +291,32 @@ fn compare_accepted(acc: &mut Acc, case: &Case, msg: &Message, m: &wire::RefMsg,
         let has = msg.has_attribute(AttributeType::new(t));
         if got != want || has != want.is_some() {
             viol!(acc, P, &format!("{clause_prefix}lookup"), case, format!("raw_attribute/has_attribute({t:#06x}) is not the first match"), format!("{:?}", want.map(|v| fmt_bytes(&v))), format!("{:?} has={has}", got.map(|v| fmt_bytes(&v))));
+        }
+    }
+    // typed lookups: attribute::<T>() is the typed decoder applied to the first occurrence (value or
+    // error alike); an absent type is reported missing
+    for k in crate::refimpl::attrs::ALL_KINDS {
+        let t = k.code();
+        let first_pos = m.attrs.iter().position(|a| a.typ == t);
+        match first_pos {
+            None => {
+                if !matches!(k, crate::refimpl::attrs::Kind::Software | crate::refimpl::attrs::Kind::ErrorCode) {
+                    continue; // two absent types suffice per message
+                }
+                match real::msg_attribute(msg, k, m.tid) {
+                    Err(PErr::MissingAttribute(x)) if x == t => {}
+                    other => viol!(acc, P, &format!("{clause_prefix}typed-lookup-absent"), case, format!("attribute::<{}>() of a message without that attribute", k.name()), format!("Err(MissingAttribute({t:#06x}))"), format!("{other:?}")),
+                }
+            }
+            Some(p) if p < cut => {
+                let raw = stun_types::attribute::RawAttribute::new(AttributeType::new(t), &m.attrs[p].value);
+                let want = real::decode_kind(k, &raw, m.tid);
+                let got = real::msg_attribute(msg, k, m.tid);
+                if got != want {
+                    viol!(acc, P, &format!("{clause_prefix}typed-lookup"), case, format!("attribute::<{}>() is not the typed decoding of the first occurrence", k.name()), format!("{want:?}"), format!("{got:?}"));
+                }
+            }
+            _ => {}
         }
     }
 }
